@@ -266,50 +266,65 @@ func TestVerif_C01(t *testing.T) {
 				return map[string]any{"sub": "gen", "len": len(c.X), "limit": c.Limit, "x": vfQ(c.X[:min(len(c.X), 80)]), "file": c.File}
 			}})
 	}
-	if t.Failed() || vfReplayMode() {
+	if t.Failed() {
 		return
 	}
-	if vfOnlySub("prefixes") {
+	if vfOnlySub("prefixes") && !vfReplayMode() {
 		c01Prefixes(t)
 	}
 	if t.Failed() {
 		return
 	}
-	if vfOnlySub("deep") && vfShard() < 4 {
-		// very deep nestings examined in full, under the runtime's default maximum stack: a
-		// recursion that grows with the input dies with a fatal error, and the journal names the case
+	if vfOnlySub("deep") {
+		vfRun(t, vfSub[c01Deep]{Prop: "C01", Name: "deep", Check: c01DeepCheck})
+		if vfReplayMode() || t.Failed() || vfShard() >= 4 {
+			return
+		}
 		shapes := []string{"[", "{\"k\":", "[{\"k\":", " [ "}
 		shape := shapes[vfShard()%len(shapes)]
-		old := debug.SetMaxStack(128 << 20)
-		defer debug.SetMaxStack(old)
 		for _, depth := range []int{200000, 1000000} {
-			x := []byte(strings.Repeat(shape, depth))
 			for _, lim := range []uint32{0, 0xffffffff} {
-				c := c01Case{X: x, Limit: lim}
-				vfJournal("C01", "deep", map[string]any{"shape": shape, "depth": depth, "limit": lim})
-				SetLimit(lim)
-				m := Detect(x)
-				mr, err := m, error(nil)
-				if lim == 0 { // DetectReader allocates `limit` bytes by design; only the unlimited case is run
-					mr, err = DetectReader(bytes.NewReader(x))
-				}
-				SetLimit(defaultLimit)
-				var r vfResult
-				r.Nontrivial = true
-				r.Labels = []string{"deep-nesting"}
-				r.Hash = vfHash([]byte(shape), vfHashU(uint64(depth), uint64(lim)))
-				if m == nil || mr == nil || err != nil {
-					r.Err = fmt.Errorf("deep nesting %q x %d at limit %d: Detect=%v DetectReader=(%v,%v)", shape, depth, lim, m, mr, err)
-				}
-				vfStats.record(r, func() any { return map[string]any{"sub": "deep", "shape": shape, "depth": depth, "limit": lim} })
+				c := c01Deep{Shape: shape, Depth: depth, Limit: lim}
+				r := c01DeepCheck(c)
+				vfStats.record(r, func() any { return map[string]any{"sub": "deep", "case": c} })
 				if r.Err != nil {
-					vfEnumFail(t, "C01", "deep", c01Case{X: c.X[:64], Limit: lim}, r.Err)
+					vfEnumFail(t, "C01", "deep", c, r.Err)
 					return
 				}
 			}
 		}
 		vfStats.Subchecks["deep"] = "nestings of 200000 and 1000000 levels under a 128 MiB maximum stack ('[', '{\"k\":', '[{\"k\":', ' [ '; one shape per shard 0-3) at limits 0 and 2^32-1 through Detect and DetectReader"
 	}
+}
+
+// c01Deep: very deep nestings examined in full under a 128 MiB maximum stack: a recursion that
+// grows with the input dies with a fatal error, and the journal names the case.
+type c01Deep struct {
+	Shape string `json:"shape"`
+	Depth int    `json:"depth"`
+	Limit uint32 `json:"limit"`
+}
+
+func c01DeepCheck(c c01Deep) vfResult {
+	var r vfResult
+	old := debug.SetMaxStack(128 << 20)
+	defer debug.SetMaxStack(old)
+	vfJournal("C01", "deep", c)
+	x := []byte(strings.Repeat(c.Shape, c.Depth))
+	SetLimit(c.Limit)
+	defer SetLimit(defaultLimit)
+	m := Detect(x)
+	mr, err := m, error(nil)
+	if c.Limit == 0 { // DetectReader allocates `limit` bytes by design; only the unlimited case is run
+		mr, err = DetectReader(bytes.NewReader(x))
+	}
+	r.Nontrivial = true
+	r.Labels = []string{"deep-nesting"}
+	r.Hash = vfHash([]byte(c.Shape), vfHashU(uint64(c.Depth), uint64(c.Limit)))
+	if m == nil || mr == nil || err != nil {
+		r.Err = fmt.Errorf("deep nesting %q x %d at limit %d: Detect=%v DetectReader=(%v,%v)", c.Shape, c.Depth, c.Limit, m, mr, err)
+	}
+	return r
 }
 
 func FuzzVerif_C01(f *testing.F) {
